@@ -102,10 +102,12 @@ fn main() {
                                       for q in v.iter() { if !q.is_normalized() { out.push("notnorm".into()); } else if q.is_zero() { out.push("inf".into()); } else { $outp(q, &mut out); } } }
                     "precomp_3" => { let a = p.into_affine(); let mut pre = vec![$Aff::zero(); 3]; a.precomp_3(&mut pre); let r = a.mul_precomp_3(fr_repr(&e.s("k")), &pre); $outp(&r, &mut out); }
                     // wNAF contexts; k0 (optional, comma separated) are scalars used on the SAME context before k (reuse history)
-                    "wnaf_sb" => { let mut ctx = pairing::Wnaf::new(); for k0 in e.s("k0").split(',').filter(|x| !x.is_empty()) { let _ = ctx.scalar(fr_repr(k0)).base(p); }
+                    "wnaf_sb" => { let mut ctx = pairing::Wnaf::new(); let hp = if e.0.contains_key("q__z") || e.0.contains_key("q__z__c0") { e.$get("q") } else { p };
+                                   for k0 in e.s("k0").split(',').filter(|x| !x.is_empty()) { let _ = ctx.scalar(fr_repr(k0)).base(hp); }
                                    let r = ctx.scalar(fr_repr(&e.s("k"))).base(p); $outp(&r, &mut out); }
                     "wnaf_bs" => { let mut ctx = pairing::Wnaf::new(); let n: usize = e.s("n").parse().unwrap_or(1);
-                                   for k0 in e.s("k0").split(',').filter(|x| !x.is_empty()) { let _ = ctx.base(p, n).scalar(fr_repr(k0)); }
+                                   let hp = if e.0.contains_key("q__z") || e.0.contains_key("q__z__c0") { e.$get("q") } else { p };
+                                   for k0 in e.s("k0").split(',').filter(|x| !x.is_empty()) { let _ = ctx.base(hp, n).scalar(fr_repr(k0)); }
                                    let r = ctx.base(p, n).scalar(fr_repr(&e.s("k"))); $outp(&r, &mut out); }
                     "wnaf_staged" => { let mut ctx = pairing::Wnaf::new(); let n: usize = e.s("n").parse().unwrap_or(1); let mut st = ctx.base(p, n);
                                    for k0 in e.s("k0").split(',').filter(|x| !x.is_empty()) { let _ = st.scalar(fr_repr(k0)); }
